@@ -20,6 +20,8 @@ pub struct Recorder {
     /// C12: run every Pinocchio-served instruction also through the Anchor handler on a copy and compare
     pub dual: bool,
     pub dual_runs: usize,
+    /// C20: quote every single swap with the Rust core SDK on the pre-state
+    pub sdk: bool,
     known_prices: BTreeSet<i32>,
     pub samples: Vec<Value>,
 }
@@ -80,7 +82,7 @@ impl Recorder {
         (bank, ex)
     }
     pub fn new(out: Box<dyn Write>) -> Recorder {
-        Recorder { out, events: 0, resets: 0, stats: BTreeMap::new(), panics: 0, routing_checks: 0, routing_mismatch: vec![], crosscheck_every: 0, dual: false, dual_runs: 0, known_prices: BTreeSet::new(), samples: vec![] }
+        Recorder { out, events: 0, resets: 0, stats: BTreeMap::new(), panics: 0, routing_checks: 0, routing_mismatch: vec![], crosscheck_every: 0, dual: false, dual_runs: 0, sdk: false, known_prices: BTreeSet::new(), samples: vec![] }
     }
     pub fn to_file(path: &str) -> Recorder {
         let f = std::fs::File::create(path).unwrap_or_else(|e| panic!("cannot create {path}: {e}"));
@@ -163,6 +165,7 @@ impl Recorder {
             }
         }
         let dual = if self.dual && PINO_NAMES.contains(&ix.name.as_str()) { Some(self.dual_run(w, ix)) } else { None };
+        let pre_bank = if self.sdk && (ix.name == "swap" || ix.name == "swap_v2") { Some(w.bank.clone()) } else { None };
         let ex = w.exec_raw(&inst);
         let dual = dual.map(|(bank_a, ex_a)| {
             // compare the Anchor run (on a copy) with the Pinocchio run (the real one)
@@ -195,6 +198,15 @@ impl Recorder {
             })
             .collect();
         let evs = decode_events(w, &ex);
+        let sdk = match (&pre_bank, swaps.first()) {
+            (Some(b), Some(sw)) if swaps.len() == 1 => {
+                let num = |v: &Value| -> u128 { v.as_str().map(|s| s.parse().unwrap()).unwrap_or_else(|| v.as_u64().unwrap_or(0) as u128) };
+                let names = ix.slot_names();
+                let supplied: Vec<solana_program::pubkey::Pubkey> = names.iter().enumerate().filter(|(_, n)| n.starts_with("tick_array_") || n.starts_with("supplemental_")).map(|(i, _)| ix.metas[i].pubkey).collect();
+                crate::sdk::quote(b, &ix.key("whirlpool"), &ix.key("oracle"), &supplied, num(&sw["amount"]) as u64, num(&sw["limit"]), sw["exact_in"] == true, sw["a_to_b"] == true, num(&sw["ts"]) as u64)
+            }
+            _ => json!({"present": false}),
+        };
         // ticks whose prices the spec may need
         let mut ticks = Self::ticks_of_state(&proj);
         for key in ["lo", "up", "newLo", "newUp"] {
@@ -231,7 +243,7 @@ impl Recorder {
             "must": must, "now": nu(w.now as u128), "epoch": nu(crate::svm::epoch() as u128), "tag": tag,
             "logs": if ex.ok() { vec![] } else { ex.logs.iter().rev().take(4).rev().cloned().collect::<Vec<_>>() },
             "swaps": swaps, "events": evs, "diff": d, "prices": prices,
-            "dual": dual.unwrap_or(json!({"present": false})), "routing": routing,
+            "dual": dual.unwrap_or(json!({"present": false})), "routing": routing, "sdk": sdk,
         });
         w.last_proj = proj;
         self.write(&ev);
